@@ -294,14 +294,14 @@ Proof.
 Qed.
 
 (* ---------- C01 at the level of the tree model ---------- *)
-Theorem kept_key_found o keys vals T i k :
-  build o keys vals = Ok T ->
+Theorem kept_key_found_gen b o keys vals T i k :
+  build_gen b o keys vals = Ok T ->
   nth_error keys i = Some k ->
   nth i (to_keep o (length keys) vals) true = true ->
   (exists id, getid T k = Some id) /\
   exists v, get T k = Ok (Found v) /\ val_bytes v = supplied vals i /\ (vals = None -> v = None).
 Proof.
-  intros Hb Hk Hkeep. destruct (build_ok _ _ _ _ Hb) as [[-> _]|(r & lidx & B)]; [destruct i; discriminate|].
+  intros Hb Hk Hkeep. destruct (build_gen_ok b _ _ _ _ Hb) as [[-> _]|(r & lidx & B)]; [destruct i; discriminate|].
   set (e := {| e_key := k; e_nibs := nibs k; e_keep := nth i (to_keep o (length keys) vals) true; e_idx := 0 + i |}).
   assert (In e (s_ents (root_subset o keys vals))) as He.
   { cbn [root_subset s_ents]. eapply nth_error_In. apply mk_ents_nth. exact Hk. }
@@ -315,6 +315,14 @@ Proof.
   destruct (leaf_value_kept vals lidx T id ord tail i (bt_leaves _ _ _ _ _ _ B) Hn) as (v & Hv & Hvb & Hvn).
   rewrite Hv. exists v. auto.
 Qed.
+
+Theorem kept_key_found o keys vals T i k :
+  build o keys vals = Ok T ->
+  nth_error keys i = Some k ->
+  nth i (to_keep o (length keys) vals) true = true ->
+  (exists id, getid T k = Some id) /\
+  exists v, get T k = Ok (Found v) /\ val_bytes v = supplied vals i /\ (vals = None -> v = None).
+Proof. exact (kept_key_found_gen true o keys vals T i k). Qed.
 
 (* ---------- which keys are retained (newToKeep), as the property states it ---------- *)
 Definition retained (o : opts) (keys : list key) (vals : option (list (list byte))) (i : nat) : bool :=
